@@ -301,8 +301,10 @@ class Server:
             self.secnode.add_secnode_property(k, opts.pop(k))
 
         self.secnode.create_modules()
-        # initialize all modules by getting them with Dispatcher.get_module,
-        # which is done in the get_descriptive data
+        # initialize all modules by getting them with Dispatcher.get_module
+        # (get_descriptive_data below does this for exported modules only)
+        for modname in list(self.secnode.modules):
+            self.secnode.get_module(modname)
         # TODO: caching, to not make this extra work
         self.secnode.get_descriptive_data('')
         # =========== All modules are initialized ===========
